@@ -211,6 +211,11 @@ def sorm_model_stream(res, rng, k):
     from ffpack import rpm
     from ffpack.rrm import secondOrderReliabilityMethod as sorm
     from formmodel import fcsv, unbits, gen_problem, gen_limit_state
+    if not hasattr(sorm, 'mainCurvaturesAtDesignPoint'):
+        # an internal helper of the module (the repository's own tests patch it too); without it the curvatures are not observable
+        res.notes.append('mainCurvaturesAtDesignPoint not found: the curvature-extraction model stream was skipped')
+        res.stat('sorm_model_stream_skipped')
+        return
     reqs, meta = [], []
     for _ in range(k):
         d, kinds, p1, p2, dists, R = gen_problem(rng, np, stats, dmax=4)
